@@ -331,6 +331,20 @@ def native(art, tier, stats, fnd):
                 stripped = r.stdout.replace('require "%s"\n' % exp, "", 1).replace('require "%s"' % exp, "", 1)
                 ok = pre_end >= 0 and between == "" and stripped.replace("\n", "") == base_out.replace("\n", "")
             if not ok: fnd.report("require-flag", "--require %s: expected exactly one `require \"%s\"` right after the preamble and nothing else changed; got requires %s" % (mname, exp, reqs), {"main.sy": PROG_OK}, cmd="sylt -o - --require %s main.sy | grep -n require" % mname)
+        # the require line does not depend on what the program contains or on the other flags: programs with / without externals, with / without the bundled std, -o - and -o FILE
+        progs = {"noext.sy": "start :: fn do\n    x := 1\n    x += 2\nend\n", "withext.sy": "hook: fn int -> void : external\nstart :: fn do\n    hook(1)\nend\n",
+                 "imports_only.sy": "use noext\nstart :: fn do\n    noext.start()\nend\n"}
+        for pn, text in progs.items(): open(os.path.join(d, pn), "w").write(text)
+        for pn in progs:
+            for extra in (["--no-std"], []):
+                b0 = run(["-o", "-"] + extra + [pn]); r1 = run(["-o", "-", "--require", "game.ext"] + extra + [pn]); outf = os.path.join(d, "rq.lua")
+                r2 = run(["-o", outf, "--require", "game.ext"] + extra + [pn]); n += 3
+                want = b0.stdout.replace("-- End Sylt preamble", "-- End Sylt preamble\x00", 1)
+                got = r1.stdout.replace('require "game.ext"', "\x00", 1)
+                ok = b0.returncode == 0 and r1.returncode == 0 and r2.returncode == 0 and r1.stdout.count('require "game.ext"') == 1 and got.replace("\n", "") == want.replace("\n", "") and open(outf).read() == r1.stdout
+                if not ok:
+                    fnd.report("require-flag:program-or-flags-dependent", "`--require game.ext %s%s`: expected the chunk of the same compile without --require plus exactly one `require \"game.ext\"` right after the preamble, on stdout and in FILE alike; requires found: %d (stdout), %d (FILE)" % (" ".join(extra) + (" " if extra else ""), pn, r1.stdout.count('require "game.ext"'), open(outf).read().count('require "game.ext"') if os.path.exists(outf) else -1),
+                               {"main.sy": progs[pn], "noext.sy": progs["noext.sy"]}, cmd="sylt -o - --require game.ext %s main.sy | grep -c 'require \"game.ext\"'" % " ".join(extra)); break
         # short-writing io::Write
         for k in (1, 7, 4096):
             r = subprocess.run([art["replay"], "short", "ok2.sy", str(k)], cwd=d, capture_output=True, text=True, timeout=60); n += 1
